@@ -31,6 +31,7 @@ func runC09(c *Ctx) {
 	ruleDedup(c, a)
 	ruleSearch(c, "SEARCH", 2)
 	ruleSnapshot(c) // every key bound to the listener is tried, whatever the last-client-IP state
+	ruleKeyBytes(c) // a bound key authenticates however the first bytes are segmented: the finder reads them all before searching
 	// "exactly": after a reload that keeps an address, the handle of the old generation must stop taking connections and
 	// datagrams of the shared socket the moment it is released, or the old generation's keys keep working there
 	for _, m := range findMultiListeners(c, "CLOSEDGUARD") {
